@@ -6,6 +6,7 @@ import (
 	"os/exec"
 	"path/filepath"
 	"reflect"
+	"sort"
 	"strings"
 	"time"
 
@@ -246,6 +247,65 @@ func c08DatedMembers(x any) {
 
 // c08Containment: a view that is the SAME memory as the value it was made from (a reinterpretation, not a copy) must not be a
 // larger struct than that value - whatever route produced it (unsafe.Pointer conversion, reflect.Value.UnsafePointer, ...).
+// c08Scrub uses and zeroes 16 KiB of stack below its caller, as any ordinary call chain that runs after a helper has returned would.
+//
+//go:noinline
+func c08Scrub(n int) uintptr {
+	var pad [2048]uintptr
+	for i := range pad {
+		pad[i] = 0
+	}
+	return pad[n&2047]
+}
+
+// c08ShallowDiff compares what can be read without following a pointer - integers, booleans, the lengths of strings and slices, the
+// nil-ness of interfaces - for the properties the view and the original share. It returns "" when they agree.
+func c08ShallowDiff(view any, x any) string {
+	rv := reflect.ValueOf(view)
+	if view == nil || rv.Kind() != reflect.Pointer || rv.IsNil() {
+		return ""
+	}
+	vv, sv := rv.Elem(), reflect.ValueOf(x)
+	if sv.Kind() == reflect.Pointer {
+		if sv.IsNil() {
+			return ""
+		}
+		sv = sv.Elem()
+	}
+	if vv.Kind() != reflect.Struct || sv.Kind() != reflect.Struct {
+		return ""
+	}
+	vIdx, sIdx := c08TermIndex(vv.Type()), c08TermIndex(sv.Type())
+	terms := make([]string, 0, len(vIdx))
+	for term := range vIdx {
+		if _, ok := sIdx[term]; ok {
+			terms = append(terms, term)
+		}
+	}
+	sort.Strings(terms)
+	shallow := func(f reflect.Value) string {
+		switch f.Kind() {
+		case reflect.String, reflect.Slice:
+			return fmt.Sprintf("len=%d", f.Len())
+		case reflect.Int, reflect.Int64, reflect.Uint, reflect.Uint64, reflect.Float64, reflect.Bool:
+			return fmt.Sprint(f.Interface())
+		case reflect.Interface, reflect.Pointer:
+			return fmt.Sprintf("nil=%v", f.IsNil())
+		}
+		return ""
+	}
+	for _, term := range terms {
+		vf, sf := vv.Field(vIdx[term]), sv.Field(sIdx[term])
+		if vf.Kind() != sf.Kind() {
+			continue
+		}
+		if a, b := shallow(vf), shallow(sf); a != b {
+			return fmt.Sprintf("%s: view %s, original %s", term, a, b)
+		}
+	}
+	return ""
+}
+
 func c08Containment(t *engine.T, class string, src any, view any) {
 	sv, vv := reflect.ValueOf(src), reflect.ValueOf(view)
 	if sv.Kind() != reflect.Pointer || vv.Kind() != reflect.Pointer || sv.IsNil() || vv.IsNil() {
@@ -348,12 +408,29 @@ func c08Run(c *engine.Ctx) {
 						var err error
 						called := false
 						before := canon.Of(x, canon.Raw)
+						// a view must stay readable for as long as the caller holds it: straight after it is made (inside the callback for the
+						// On form) an unrelated call uses - and zeroes - 16 KiB of stack, and only what can be read safely whatever the view
+						// points at (integers, lengths of strings and lists) is compared first. A view into the dead frame of the helper
+						// reads zero lengths here, deterministically; the deep comparison below would crash on it in changing ways.
+						dangling := ""
 						if via == "To" {
 							view, err = h.to(it)
+							if err == nil {
+								c08Scrub(len(class))
+								dangling = c08ShallowDiff(view, x)
+							}
 						} else {
-							err = h.on(it, func(p any) { view, called = p, true })
+							err = h.on(it, func(p any) {
+								view, called = p, true
+								c08Scrub(len(class))
+								dangling = c08ShallowDiff(p, x)
+							})
 						}
 						t.Ops(1)
+						if dangling != "" {
+							t.Fail(class+"|view-does-not-survive-an-unrelated-call", "after an unrelated call that used 16 KiB of stack the view reads differently from the original: %s (the view refers to memory that is not part of the value)", dangling)
+							return
+						}
 						// making a view (and calling back with it) is not a write: the value reads exactly as before
 						if after := canon.Of(x, canon.Raw); !canon.Equal(before, after) {
 							ds := canon.Diff(before, after)
